@@ -305,6 +305,7 @@ class Normaliser:
     def run(self):
         self.n1_module_constants()
         self.n1b_class_constants()
+        self.n32_kwargs_helpers()
         self.n25_flag_comparisons()
         self.n26_canonical_spellings()
         self.n22_function_values()
@@ -344,8 +345,19 @@ class Normaliser:
         return self
 
     # ---- N1
+    @staticmethod
+    def _rel_of_module(dotted: str, rel: str, level: int):
+        if level:
+            base = rel.rsplit('/', level)[0] if rel.count('/') >= level else ''
+            return (base + '/' if base else '') + dotted.replace('.', '/') + '.py' if dotted else None
+        if dotted.startswith('factorysimpy.'):
+            return dotted[len('factorysimpy.'):].replace('.', '/') + '.py'
+        return None
+
     def n1_module_constants(self):
-        for rel, tree in self.trees.items():
+        """module-level NAME = <literal> (bound once, never rebound): uses are replaced by the literal - also in the modules that import the name
+        (`from factorysimpy.constants import IDLE_STATE`), also when the literal is built from other such constants (a tuple of state names)"""
+        def binds_of(tree):
             binds: Dict[str, list] = {}
             for n in ast.walk(tree):
                 if isinstance(n, ast.Name) and isinstance(n.ctx, (ast.Store, ast.Del)):
@@ -358,14 +370,48 @@ class Normaliser:
                 elif isinstance(n, (ast.Import, ast.ImportFrom)):
                     for al in n.names:
                         binds.setdefault((al.asname or al.name).split('.')[0], []).append(n)
-            consts: Dict[str, ast.AST] = {}
-            for n in tree.body:
-                if isinstance(n, ast.Assign) and len(n.targets) == 1 and isinstance(n.targets[0], ast.Name):
-                    nm = n.targets[0].id
-                    v = n.value
-                    lit = isinstance(v, ast.Constant) or (isinstance(v, ast.Tuple) and all(isinstance(e, ast.Constant) for e in v.elts))
-                    if lit and len(binds.get(nm, [])) == 1:
-                        consts[nm] = v
+            return binds
+
+        def literal(v, known):
+            """the expression as a literal built from constants / already known constant names, or None"""
+            if isinstance(v, ast.Constant):
+                return v
+            if isinstance(v, ast.Name) and v.id in known:
+                return known[v.id]
+            if isinstance(v, (ast.Tuple, ast.List)):
+                elts = [literal(e, known) for e in v.elts]
+                if all(e is not None and isinstance(e, ast.Constant) for e in elts):
+                    return ast.copy_location(ast.Tuple(elts=[copy.deepcopy(e) for e in elts], ctx=ast.Load()), v) if isinstance(v, ast.Tuple) \
+                        else ast.copy_location(ast.List(elts=[copy.deepcopy(e) for e in elts], ctx=ast.Load()), v)
+            if isinstance(v, ast.BinOp) and isinstance(v.op, ast.Add):
+                l, r_ = literal(v.left, known), literal(v.right, known)
+                if isinstance(l, ast.Tuple) and isinstance(r_, ast.Tuple):
+                    return ast.copy_location(ast.Tuple(elts=[copy.deepcopy(e) for e in l.elts + r_.elts], ctx=ast.Load()), v)
+            return None
+        all_binds = {rel: binds_of(tree) for rel, tree in self.trees.items()}
+        tables: Dict[str, Dict[str, ast.AST]] = {rel: {} for rel in self.trees}
+        for _round in range(3):
+            for rel, tree in self.trees.items():
+                known = tables[rel]
+                # imported constants
+                for n in tree.body:
+                    if isinstance(n, ast.ImportFrom):
+                        src_rel = self._rel_of_module(n.module or '', rel, n.level)
+                        if src_rel in tables:
+                            for al in n.names:
+                                nm = al.asname or al.name
+                                if al.name in tables[src_rel] and len(all_binds[rel].get(nm, [])) == 1:
+                                    known.setdefault(nm, tables[src_rel][al.name])
+                for n in tree.body:
+                    if isinstance(n, ast.Assign) and len(n.targets) == 1 and isinstance(n.targets[0], ast.Name):
+                        nm = n.targets[0].id
+                        if nm in known or len(all_binds[rel].get(nm, [])) != 1:
+                            continue
+                        lit = literal(n.value, known)
+                        if lit is not None:
+                            known[nm] = lit
+        for rel, tree in self.trees.items():
+            consts = tables[rel]
             if not consts:
                 continue
             tops = [n for n in tree.body if isinstance(n, ast.FunctionDef)]
@@ -422,6 +468,70 @@ class Normaliser:
             for n in ast.walk(tree):
                 if isinstance(n, (ast.If, ast.While, ast.IfExp, ast.Assert)):
                     n.test = strip(n.test)
+
+    # ---- N32
+    def n32_kwargs_helpers(self):
+        """private helper `h(self, ..., **tags)` whose only use of `tags` is `for k, v in tags.items(): setattr(obj, k, v)`: specialised per set of keyword
+        names used at the call sites (`h__kw_priority_to_put(self, ..., *, priority_to_put)` with `obj.priority_to_put = priority_to_put`), so that the
+        attribute writes are visible again and the ordinary helper inlining applies"""
+        changed = False
+        for name, defs in list(self.defs.items()):
+            if len(defs) != 1 or not is_private(name) or name in self.vocab:
+                continue
+            cls, fn = defs[0]
+            if fn.args.kwarg is None or fn.decorator_list:
+                continue
+            kw = fn.args.kwarg.arg
+            loops = [st for st in fn.body if isinstance(st, ast.For) and isinstance(st.iter, ast.Call) and isinstance(st.iter.func, ast.Attribute)
+                     and st.iter.func.attr == 'items' and isinstance(st.iter.func.value, ast.Name) and st.iter.func.value.id == kw
+                     and isinstance(st.target, ast.Tuple) and len(st.target.elts) == 2 and all(isinstance(e, ast.Name) for e in st.target.elts)
+                     and len(st.body) == 1 and isinstance(st.body[0], ast.Expr) and isinstance(st.body[0].value, ast.Call)
+                     and isinstance(st.body[0].value.func, ast.Name) and st.body[0].value.func.id == 'setattr' and len(st.body[0].value.args) == 3
+                     and isinstance(st.body[0].value.args[0], ast.Name)
+                     and [a.id if isinstance(a, ast.Name) else None for a in st.body[0].value.args[1:]] == [e.id for e in st.target.elts]]
+            uses = [x for x in ast.walk(fn) if isinstance(x, ast.Name) and x.id == kw]
+            if len(loops) != 1 or len(uses) != 1:
+                continue
+            loop = loops[0]
+            obj = loop.body[0].value.args[0].id
+            named = {a.arg for a in fn.args.args + fn.args.kwonlyargs}
+            sites = []
+            ok = True
+            for tree in self.trees.values():
+                for c in ast.walk(tree):
+                    if isinstance(c, ast.Attribute) and c.attr == name and not (isinstance(c.value, ast.Name) and c.value.id == 'self'):
+                        ok = False
+                    if isinstance(c, ast.Call) and isinstance(c.func, ast.Attribute) and c.func.attr == name:
+                        if any(k.arg is None for k in c.keywords) or any(isinstance(a, ast.Starred) for a in c.args):
+                            ok = False
+                        sites.append(c)
+            if not ok or not sites:
+                continue
+            variants = {}
+            for c in sites:
+                extra = tuple(k.arg for k in c.keywords if k.arg not in named)
+                vname = name + ('__kw_' + '_'.join(extra) if extra else '__kw')
+                if vname not in variants:
+                    clone = copy.deepcopy(fn)
+                    clone.name = vname
+                    clone.args.kwarg = None
+                    for k in extra:
+                        clone.args.args.append(ast.arg(arg=k))
+                        if clone.args.defaults:
+                            clone.args.defaults.append(ast.Constant(value=None))
+                    i = [id(x) for x in fn.body].index(id(loop))
+                    assigns = [ast.copy_location(ast.Assign(targets=[ast.Attribute(value=ast.Name(id=obj, ctx=ast.Load()), attr=k, ctx=ast.Store())],
+                                                            value=ast.Name(id=k, ctx=ast.Load())), loop) for k in extra]
+                    clone.body[i:i + 1] = assigns or [ast.copy_location(ast.Pass(), loop)]
+                    ast.fix_missing_locations(clone)
+                    variants[vname] = clone
+                c.func.attr = vname
+            cls.body.remove(fn)
+            cls.body.extend(variants.values())
+            self.note('N32', f'{cls.name}.{name}: **{kw} specialised into {sorted(variants)}')
+            changed = True
+        if changed:
+            self._scan_classes()
 
     # ---- N25
     def n25_flag_comparisons(self):
@@ -1818,6 +1928,9 @@ def normalise(trees: Dict[str, ast.Module]) -> Normaliser:
     from . import flatten
     flog: List[str] = []
     fstats = flatten.flatten(trees, anchor_vocabulary(), flog)
+    nrec = flatten.records_to_tuples(trees, flog)
+    if nrec:
+        fstats['records_to_tuples'] = nrec
     nz = Normaliser(trees)
     for k, v in fstats.items():
         if v:
